@@ -27,8 +27,9 @@ def c06_runs(tier, scale):
 
 def c07_runs(tier, scale):
     if tier == "thorough":
-        return [("c07", [6000 * scale, 2 + (i % 4)], None) for i in range(16)]
-    return [("c07", [600 * scale, 3], None), ("c07", [400 * scale, 4], None)]
+        return [("c07", [8000 * scale, 2 + (i % 4)], None) for i in range(16)]
+    # (the catalogue alone is 28 schemas x (2 + 3 x 29 forms) rounds = 2492 cases)
+    return [("c07", [2900 * scale, 3], None), ("c07", [2700 * scale, 4], None)]
 
 
 def c08_runs(tier, scale):
